@@ -36,6 +36,12 @@ add("C05", "model_checking",
     "Trusted: REF-SUP bands (frozen) and predicates; the monitor reads pending-write/wait/last-bus-read latches via the verif-hooks accessors; at the conflict edge (rule broken and STOP loaded together) either halt kind is accepted.",
     "DESIGN.md 3/C05")
 
+add("C11", "model_checking",
+    "explicit-state exploration of every mid-run machine state of a program corpus; twin comparison (assembly step vs. specification twin on raw clock edges) by whole-Machine equality; bounded termination analysis with exact state-cycle detection, confirmed in killable child processes",
+    "At every state reached by clock-stepping 0..70 edges into every ordered pair of a 35-instruction alphabet (interrupt just triggered or not, either step mode, halting and supervised programs included) one or three assembly steps on a clone must equal clock-stepping to the next boundary(ies); step-mode switches must not alter the machine; for all 256 first bytes and 4 x 256 second bytes the step must return, a non-returning step is accepted only for REF-ISA's undefined opcodes (known finding).",
+    "Trusted: spec_step (the statement's wording on raw edges); REF-ISA's defined-opcode sets; a twin that repeats an identical full machine state or exceeds 4096 edges counts as never returning.",
+    "DESIGN.md 3/C11")
+
 NOT_YET = {}
 
 def main():
